@@ -1,8 +1,10 @@
 package main
 
 import (
+	"bufio"
 	"bytes"
 	"fmt"
+	"io"
 	"math/bits"
 	"math/rand"
 	"sort"
@@ -34,6 +36,11 @@ import (
 //   Save -> Load -> remaining outputs of the loaded iterator == remaining outputs of the original (same order);
 //   the original continues undisturbed after Save; the two iterators are independent in both directions; the saved
 //   bytes can be overwritten after Load; loading the same bytes twice gives the same remainder; random chains.
+// for every request additionally (c04Stream): k >= 2 saves — different shards at different positions, and one iterator
+//   saved, advanced and saved again — are written back to back into ONE stream; they are loaded one after the other
+//   from a bytes.Buffer, a bytes.Reader, a caller-side bufio.Reader and a plain io.Reader that hands out one byte per
+//   Read; every loaded iterator must resume with exactly its remainder and every Load must consume exactly its own
+//   save (the rest of the stream intact).
 
 const c04MaxHist = 2500
 
@@ -91,7 +98,7 @@ func c04Brief(ms []uint64) string {
 }
 
 // c04History is the direct check of C04 on one configuration.  Returns "" or a description of the first failure.
-func c04History(n, a, m int, pname, place string, r *rand.Rand) (msg string, positions int) {
+func c04History(n, a, m int, pname, place string, r *rand.Rand) (msg string, positions int, full []uint64) {
 	p, _ := c03PredByName(pname)
 	pre, pr := c03Funcs(p, place)
 	mk := func() *search.GraphIterator { return search.WithPruning(n, a, m, pre, pr) }
@@ -101,7 +108,7 @@ func c04History(n, a, m int, pname, place string, r *rand.Rand) (msg string, pos
 			msg = fmt.Sprintf("%s: panic during the save/load history at position %d: %v", cfg, positions, e)
 		}
 	}()
-	full := c04Rest(mk())
+	full = c04Rest(mk())
 	L := len(full)
 	ks := []int{}
 	if L <= c04MaxHist {
@@ -128,10 +135,10 @@ func c04History(n, a, m int, pname, place string, r *rand.Rand) (msg string, pos
 		for pos < k {
 			v, ok := c04Step(walker)
 			if pos < L && (!ok || v != full[pos]) {
-				return fmt.Sprintf("%s: the original iterator was disturbed by earlier Save/Load calls: output #%d is %v/%v, expected %d", cfg, pos, v, ok, full[pos]), positions
+				return fmt.Sprintf("%s: the original iterator was disturbed by earlier Save/Load calls: output #%d is %v/%v, expected %d", cfg, pos, v, ok, full[pos]), positions, full
 			}
 			if pos >= L && ok {
-				return fmt.Sprintf("%s: the original iterator yields again after exhaustion (call #%d) once it has been saved", cfg, pos), positions
+				return fmt.Sprintf("%s: the original iterator yields again after exhaustion (call #%d) once it has been saved", cfg, pos), positions, full
 			}
 			pos++
 		}
@@ -147,49 +154,49 @@ func c04History(n, a, m int, pname, place string, r *rand.Rand) (msg string, pos
 		case 0:
 			// loaded runs to the end while the original is parked at k
 			if got := c04Rest(loaded); !c04Eq(got, want) {
-				return fmt.Sprintf("%s: Save after %d Next calls then Load resumes with %s but the original continues with %s", cfg, k, c04Brief(got), c04Brief(want)), positions
+				return fmt.Sprintf("%s: Save after %d Next calls then Load resumes with %s but the original continues with %s", cfg, k, c04Brief(got), c04Brief(want)), positions, full
 			}
 		case 1:
 			// the original moves first (one step), the loaded iterator must not notice
 			v, ok := c04Step(walker)
 			if pos < L && (!ok || v != full[pos]) {
-				return fmt.Sprintf("%s: after Save at position %d the original yields %v/%v, expected %d", cfg, k, v, ok, full[pos]), positions
+				return fmt.Sprintf("%s: after Save at position %d the original yields %v/%v, expected %d", cfg, k, v, ok, full[pos]), positions, full
 			}
 			if pos >= L && ok {
-				return fmt.Sprintf("%s: after Save at position %d (exhausted) the original yields another graph", cfg, k), positions
+				return fmt.Sprintf("%s: after Save at position %d (exhausted) the original yields another graph", cfg, k), positions, full
 			}
 			pos++
 			if got := c04Rest(loaded); !c04Eq(got, want) {
-				return fmt.Sprintf("%s: Save after %d Next calls, original advanced once, then the loaded iterator yields %s, expected %s (not independent or not resumed)", cfg, k, c04Brief(got), c04Brief(want)), positions
+				return fmt.Sprintf("%s: Save after %d Next calls, original advanced once, then the loaded iterator yields %s, expected %s (not independent or not resumed)", cfg, k, c04Brief(got), c04Brief(want)), positions, full
 			}
 		default:
 			// interleave: loaded one step, original one step, loaded the rest
 			v, ok := c04Step(loaded)
 			if len(want) > 0 && (!ok || v != want[0]) || len(want) == 0 && ok {
-				return fmt.Sprintf("%s: Save after %d Next calls then Load: first resumed output %v/%v, expected %s", cfg, k, v, ok, c04Brief(want)), positions
+				return fmt.Sprintf("%s: Save after %d Next calls then Load: first resumed output %v/%v, expected %s", cfg, k, v, ok, c04Brief(want)), positions, full
 			}
 			v, ok = c04Step(walker)
 			if pos < L && (!ok || v != full[pos]) || pos >= L && ok {
-				return fmt.Sprintf("%s: the original was disturbed by advancing the iterator loaded at position %d: yields %v/%v", cfg, k, v, ok), positions
+				return fmt.Sprintf("%s: the original was disturbed by advancing the iterator loaded at position %d: yields %v/%v", cfg, k, v, ok), positions, full
 			}
 			pos++
 			got := c04Rest(loaded)
 			if !c04Eq(got, c04Tail(want, 1)) {
-				return fmt.Sprintf("%s: Save after %d Next calls, interleaved advance: loaded iterator continues with %s, expected %s", cfg, k, c04Brief(got), c04Brief(c04Tail(want, 1))), positions
+				return fmt.Sprintf("%s: Save after %d Next calls, interleaved advance: loaded iterator continues with %s, expected %s", cfg, k, c04Brief(got), c04Brief(c04Tail(want, 1))), positions, full
 			}
 		}
 		// the saved bytes are a value: loading the untouched copy later gives the same remainder
 		if k%7 == 0 || L <= 60 {
 			again := search.Load(bytes.NewReader(keep), pre, pr)
 			if got := c04Rest(again); !c04Eq(got, want) {
-				return fmt.Sprintf("%s: loading the bytes saved at position %d a second time yields %s, expected %s", cfg, k, c04Brief(got), c04Brief(want)), positions
+				return fmt.Sprintf("%s: loading the bytes saved at position %d a second time yields %s, expected %s", cfg, k, c04Brief(got), c04Brief(want)), positions, full
 			}
 		}
 	}
 	for pos <= L { // finish the walker
 		v, ok := c04Step(walker)
 		if pos < L && (!ok || v != full[pos]) || pos >= L && ok {
-			return fmt.Sprintf("%s: the original iterator was disturbed by Save: output #%d is %v/%v", cfg, pos, v, ok), positions
+			return fmt.Sprintf("%s: the original iterator was disturbed by Save: output #%d is %v/%v", cfg, pos, v, ok), positions, full
 		}
 		pos++
 	}
@@ -204,17 +211,126 @@ func c04History(n, a, m int, pname, place string, r *rand.Rand) (msg string, pos
 			for i := 0; i < step; i++ {
 				v, ok := c04Step(it)
 				if at < L && (!ok || v != full[at]) || at >= L && ok {
-					return fmt.Sprintf("%s: chain of save/load with advances %s: output #%d is %v/%v, expected the original's output", cfg, strings.Join(desc, ","), at, v, ok), positions
+					return fmt.Sprintf("%s: chain of save/load with advances %s: output #%d is %v/%v, expected the original's output", cfg, strings.Join(desc, ","), at, v, ok), positions, full
 				}
 				at++
 			}
 			it = search.Load(bytes.NewReader(c04Save(it)), pre, pr)
 		}
 		if got := c04Rest(it); !c04Eq(got, c04Tail(full, at)) {
-			return fmt.Sprintf("%s: chain of save/load with advances %s: remaining outputs %s, expected %s", cfg, strings.Join(desc, ","), c04Brief(got), c04Brief(c04Tail(full, at))), positions
+			return fmt.Sprintf("%s: chain of save/load with advances %s: remaining outputs %s, expected %s", cfg, strings.Join(desc, ","), c04Brief(got), c04Brief(c04Tail(full, at))), positions, full
 		}
 	}
-	return "", positions
+	return "", positions, full
+}
+
+// c04OneByte hands out one byte per Read and is nothing but an io.Reader.
+type c04OneByte struct {
+	data []byte
+	pos  int
+}
+
+func (o *c04OneByte) Read(p []byte) (int, error) {
+	if o.pos >= len(o.data) {
+		return 0, io.EOF
+	}
+	if len(p) == 0 {
+		return 0, nil
+	}
+	p[0] = o.data[o.pos]
+	o.pos++
+	return 1, nil
+}
+
+type c04Shard struct {
+	a, m int
+	full []uint64
+}
+
+// c04Stream: several saved states in ONE stream, loaded one after the other.  Returns "" or the first failure.
+func c04Stream(n int, shards []c04Shard, pname, place string, r *rand.Rand) (msg string) {
+	if len(shards) == 0 {
+		return ""
+	}
+	p, _ := c03PredByName(pname)
+	pre, pr := c03Funcs(p, place)
+	type rec struct {
+		desc string
+		want []uint64
+		size int
+	}
+	var stream bytes.Buffer
+	recs := []rec{}
+	stage := "writing the saves"
+	defer func() {
+		if e := recover(); e != nil {
+			msg = fmt.Sprintf("n=%d %s as %s: %d saves written back to back into one stream (%s): panic while %s: %v", n, pname, place, len(recs), c04StreamDesc(recs, func(x rec) string { return x.desc }), stage, e)
+		}
+	}()
+	k := 2 + r.Intn(3)
+	for len(recs) < k {
+		sh := shards[r.Intn(len(shards))]
+		L := len(sh.full)
+		it := search.WithPruning(n, sh.a, sh.m, pre, pr)
+		pos := r.Intn(L + 2)
+		for i := 0; i < pos; i++ {
+			it.Next()
+		}
+		before := stream.Len()
+		it.Save(&stream)
+		recs = append(recs, rec{fmt.Sprintf("shard %d/%d after %d Next calls", sh.a, sh.m, pos), c04Tail(sh.full, pos), stream.Len() - before})
+		if len(recs) < k && r.Intn(2) == 0 { // the same iterator advanced and saved again, appended
+			adv := 1 + r.Intn(L/2+2)
+			for i := 0; i < adv; i++ {
+				it.Next()
+			}
+			before = stream.Len()
+			it.Save(&stream)
+			recs = append(recs, rec{fmt.Sprintf("the same iterator after %d more Next calls", adv), c04Tail(sh.full, pos+adv), stream.Len() - before})
+		}
+	}
+	all := append([]byte(nil), stream.Bytes()...)
+	desc := c04StreamDesc(recs, func(x rec) string { return x.desc })
+	type src struct {
+		name string
+		r    io.Reader
+		left func() int // bytes of the stream not yet consumed; -1 = unknown
+	}
+	bb := bytes.NewBuffer(append([]byte(nil), all...))
+	br := bytes.NewReader(append([]byte(nil), all...))
+	ob := &c04OneByte{data: append([]byte(nil), all...)}
+	inner := bytes.NewReader(append([]byte(nil), all...))
+	bu := bufio.NewReaderSize(inner, 64)
+	srcs := []src{
+		{"a bytes.Buffer", bb, func() int { return bb.Len() }},
+		{"a bytes.Reader", br, func() int { return br.Len() }},
+		{"an io.Reader returning one byte per Read", ob, func() int { return len(ob.data) - ob.pos }},
+		{"a caller-side bufio.Reader", bu, func() int { return inner.Len() + bu.Buffered() }},
+	}
+	for _, sc := range srcs {
+		remaining := len(all)
+		for i, rc := range recs {
+			stage = fmt.Sprintf("loading save #%d of %d (%s) from %s", i+1, len(recs), rc.desc, sc.name)
+			it := search.Load(sc.r, pre, pr)
+			remaining -= rc.size
+			if left := sc.left(); left != remaining {
+				return fmt.Sprintf("n=%d %s as %s: %d saves in one stream (%s) read from %s: Load #%d consumed %d bytes beyond its own save (%d bytes left, expected %d): the next saved state cannot be loaded", n, pname, place, len(recs), desc, sc.name, i+1, remaining-left, left, remaining)
+			}
+			stage = fmt.Sprintf("running the iterator loaded from save #%d (%s) of the stream", i+1, rc.desc)
+			if got := c04Rest(it); !c04Eq(got, rc.want) {
+				return fmt.Sprintf("n=%d %s as %s: %d saves in one stream (%s) read from %s: the iterator loaded from save #%d (%s) yields %s, expected %s", n, pname, place, len(recs), desc, sc.name, i+1, rc.desc, c04Brief(got), c04Brief(rc.want))
+			}
+		}
+	}
+	return ""
+}
+
+func c04StreamDesc[T any](recs []T, f func(T) string) string {
+	d := make([]string, len(recs))
+	for i, x := range recs {
+		d[i] = f(x)
+	}
+	return strings.Join(d, "; ")
 }
 
 // c04RunCfg produces the reply part of one cfg (advance/save/load chain, then exhaust).
@@ -449,20 +565,30 @@ func init() {
 			oracle := ""
 			tags := map[string]bool{}
 			positions := 0
+			shards := []c04Shard{}
 			for _, c := range cfgs {
 				o := guard(func() string { return c04RunCfg(n, c, pname, place) })
 				outs = append(outs, o)
 				if o == "panic" && oracle == "" {
 					oracle = fmt.Sprintf("WithPruning(n=%d,a=%d,m=%d,%s as %s): panic in the save/load chain with advances %v", n, c.a, c.m, pname, place, c.ks)
 				}
-				msg, np := c04History(n, c.a, c.m, pname, place, r)
+				msg, np, full := c04History(n, c.a, c.m, pname, place, r)
 				positions += np
 				if msg != "" && oracle == "" {
 					oracle = msg
 				}
+				if msg == "" {
+					shards = append(shards, c04Shard{c.a, c.m, full})
+				}
 				if len(c.ks) > 1 {
 					tags["chain"] = true
 				}
+			}
+			if oracle == "" && len(shards) > 0 {
+				for rep := 0; rep < 3 && oracle == ""; rep++ {
+					oracle = c04Stream(n, shards, pname, place, r)
+				}
+				tags["stream"] = true
 			}
 			tl := []string{"pred-" + pname, "place-" + place, fmt.Sprintf("n%d", n)}
 			for t := range tags {
